@@ -229,6 +229,10 @@ class Rig:
                 ctxs = []
                 # like "with cache.disabled(), logging.disabled():" - each context is created after
                 # the previous one was entered (disabled() derives from the then-current runtime)
+                # "ctx_outer": the other nesting, "with logging.disabled(), cache.disabled():"
+                if l == "ctx_outer":
+                    ctxs.append(labrea.logging.disabled())
+                    ctxs[-1].__enter__()
                 if c == "ctx":
                     ctxs.append(labrea.cache.disabled())
                     ctxs[-1].__enter__()
@@ -288,7 +292,7 @@ def judge(rig, label, mode, o, c, e, l, got, log, records, requests, twin, twin_
     if l != "on":
         if records:
             out.append(f"logging-disabled-but-emitted: {records}")
-        if l == "ctx" and requests:
+        if l in ("ctx", "ctx_outer") and requests:
             out.append(f"logging-disabled-by-context-but-request-reached-previous-handler: {requests}")
     elif got.ok:
         computed = len([1 for k, n in log if k == "body"])
@@ -337,6 +341,8 @@ def run_case(case):
         rig.wt.reset_log()
         twins.append((observe(rig.wt, lambda: rig.tobj.evaluate(copy.deepcopy(o))), list(rig.wt.log)))
     actions = [(j, c, e, l) for j in range(len(dicts)) for c in CACHE for e in EFFECTS for l in LOGGING]
+    # both nestings of the two context managers (they differ only when both are used)
+    actions += [(j, "ctx", e, "ctx_outer") for j in range(len(dicts)) for e in EFFECTS]
     init = rig.system.snapshot()
     seen = {(CacheSystem.canon(init), frozenset())}
     frontier = [(init, [], frozenset())]
@@ -388,7 +394,7 @@ def summarize(results, tier):
         "traces_validated_against_impl": tot("transitions"),
         "evaluations": tot("transitions"),
         "distinct_nontrivial": tot("nontrivial"),
-        "switch_combinations": len(CACHE) * len(EFFECTS) * len(LOGGING),
+        "switch_combinations": len(CACHE) * len(EFFECTS) * len(LOGGING) + len(EFFECTS),
         "samples": samples[:6],
         "exhaustive": True,
     }
